@@ -378,12 +378,18 @@ def ReqErr.name : ReqErr → String
 /-- the size the order sees as remaining (`BetfairOrder.size_remaining` with a simulated current order) -/
 def orderSizeRemaining (o : Order) : Rat := o.sim.sizeRemaining
 
+/-- `size_reduction and self.size_remaining - size_reduction < 0` -/
+def reductionTooLarge (o : Order) (red : Option Rat) : Bool :=
+  match red with
+  | some r => decide (r ≠ 0 ∧ orderSizeRemaining o - r < 0)
+  | none => false
+
 /-- `BetfairOrder.cancel(size_reduction)` -/
 def orderCancel (w : World) (oid : Nat) (red : Option Rat) : Except ReqErr World :=
   let o := w.order! oid
   if o.betId.isNone then .error .noBetId
   else if o.sim.kind = .limit then
-    if (match red with | some r => decide (r ≠ 0 ∧ orderSizeRemaining o - r < 0) | none => false) then .error .sizeReductionTooLarge
+    if reductionTooLarge o red then .error .sizeReductionTooLarge
     else if o.status ≠ some .executable then .error .status
     else
       let w := w.setOrder { o with ud := { o.ud with hasReduction := true, sizeReduction := red } }
